@@ -34,7 +34,7 @@ pub fn run_wire(ctx: &Ctx, rep: &mut Report) {
     let mut r = ctx.rng("c14-wire");
     let n = ctx.count(320, 8_000);
     for k in 0..n {
-        let seed = r.next();
+        let seed = ctx.scenario_seed(r.next());
         let mut sr = Rng::new(seed);
         let torrent = Rc::new(gen_sim_torrent(&mut sr, 6, false));
         let np = torrent.n();
